@@ -45,6 +45,8 @@ CONSTANTS
  Aead = TRUE
  CheckIdent = TRUE
  RelayOnce = TRUE
+ SuspendJoin = %(suspend_join)s
+ JoinCacheFirst = TRUE
  AutoTimers = FALSE
 %(locate)sINVARIANT ExitIntegrity
 INVARIANT ReturnIntegrity
@@ -69,9 +71,10 @@ PROPERTY JoinLimit
 ON_STEP = None      # set by a driver: callback(world, event) installed into every world (e.g. C08's key probe)
 
 
-def world(topology, seed, settings=None):
+def world(topology, seed, settings=None, suspend_join=False):
     t = TOPOLOGIES[topology]
-    w = OnionWorld(seed=seed, names=t["names"], exits=t["exits"], origins=t["origins"], settings=settings)
+    w = OnionWorld(seed=seed, names=t["names"], exits=t["exits"], origins=t["origins"], settings=settings,
+                   suspend_join=suspend_join)
     w.on_step = ON_STEP
     return w
 
@@ -224,7 +227,7 @@ def random_run(topology, seed, profile, steps, settings=None, max_circuits=3, go
         w.close()
 
 
-def validate(traces, topology, hdr, *, max_joined=100, max_early=8, create_guard=True, timeout=1800, track_wire=True,
+def validate(traces, topology, hdr, *, max_joined=100, max_early=8, create_guard=True, suspend_join=False, timeout=1800, track_wire=True,
              locate=None):
     """-> (ok, TlcResult, failing (trace index, event index) or None).
     Fast path: without the ENABLED-based acceptance invariant TLC simply walks every trace as far as it is a behaviour
@@ -246,6 +249,7 @@ def validate(traces, topology, hdr, *, max_joined=100, max_early=8, create_guard
                                             origins=", ".join('"%s"' % n for n in t["origins"]),
                                             max_joined=max_joined, max_early=max_early,
                                             create_guard="TRUE" if create_guard else "FALSE",
+                                            suspend_join="TRUE" if suspend_join else "FALSE",
                                             track_wire="TRUE" if track_wire else "FALSE",
                                             locate="INVARIANT TraceAccepted\nINVARIANT DebugStop\n" if with_locate else ""))
             return run_tlc("OnionTrace.tla", cfg, env={"TRACE_FILE": path}, coverage=False, timeout=timeout)
